@@ -233,6 +233,9 @@ def jobs(tier, mode="c08"):
         for mdi in admissible_mdi(b):
             big = n - 2 * b >= 5
             out.append(Job(M, "make_mw", dict(n=n, b=b, p=p, mdi=mdi, mode=mode), split=big))
+    # two qualifying runs separated by a short dip need min_detection_interval >= 3, i.e. bandwidth >= 6 (seed C08-f)
+    for (n, b, mdi) in ([(18, 6, 3)] if tier == "quick" else [(18, 6, 3), (19, 6, 3), (20, 6, 2)]):
+        out.append(Job(M, "make_mw", dict(n=n, b=b, p=1, mdi=mdi, mode=mode), split=True))
     # the same claims when the data are integer typed (the scores are still arbitrary reals)
     for (n, b, p) in ([(4, 1, 1), (5, 2, 1)] if tier == "quick" else [(4, 1, 1), (5, 1, 2), (5, 2, 1), (7, 3, 1)]):
         out.append(Job(M, "make_mw", dict(n=n, b=b, p=p, mdi=1, mode=mode, xdtype="int64")))
